@@ -27,6 +27,23 @@ from .c11 import inspectors
 PROP = "C09"
 
 
+def _applies_to_root(h: Func, cb: str, root: str) -> bool:
+    """the traversal h calls its callback parameter `cb` on its root parameter: directly, or inside a nested walker on
+    the walker's own parameter, the walker being started on the root"""
+    for x in h.own_nodes():
+        if isinstance(x, ast.Call) and isinstance(x.func, ast.Name) and x.func.id == cb and x.args and isinstance(x.args[0], ast.Name) and x.args[0].id == root:
+            return True
+    for w in h.nested.values():
+        started = any(isinstance(y, ast.Call) and isinstance(y.func, ast.Name) and y.func.id == w.name and y.args and isinstance(y.args[0], ast.Name)
+                      and y.args[0].id == root for y in h.own_nodes())
+        if not started:
+            continue
+        for x in w.own_nodes():
+            if isinstance(x, ast.Call) and isinstance(x.func, ast.Name) and x.func.id == cb and x.args and isinstance(x.args[0], ast.Name) and x.args[0].id in w.params:
+                return True
+    return False
+
+
 def run(ctx: Ctx) -> None:
     rep = ctx.report
     prog = ctx.prog
@@ -263,6 +280,61 @@ def run(ctx: Ctx) -> None:
     from .c03 import global_cache_rule
     rep.rule("C09.R8", "as C03.R3(i): the process-wide interaction cache has no writer")
     global_cache_rule(ctx, "C09.R8")
+    # ---- R10: the collectors of produced paths start at the root -------------------------------------------------------
+    rep.rule("C09.R10", "the collectors of kept paths (all_stores / all_store_paths) record the path of the node they are called on, not only of its "
+                        "descendants: the root of dds.eval(data_function) produces its own path")
+    n10 = 0
+    for q in ("dds.structures_utils.FunctionIndirectInteractionUtils.all_stores", "dds.structures_utils.FunctionInteractionsUtils.all_store_paths"):
+        c_ = prog.funcs.get(q)
+        if c_ is None:
+            continue
+        n10 += 1
+        root_params = [p_ for p_ in c_.params if p_ not in ("cls", "self")]
+        members = [c_] + list(c_.nested.values())
+        reads = []
+        for g_ in members:
+            for x in g_.own_nodes():
+                if isinstance(x, ast.Attribute) and x.attr == "store_path" and isinstance(x.value, ast.Name):
+                    reads.append((g_, x))
+        covering = False
+        for g_, x in reads:
+            if x.value.id not in g_.params:
+                continue
+            if g_ is c_ and x.value.id in root_params:
+                covering = True
+            else:
+                # the walker is started on the root: called somewhere in the collector with the collector's own parameter
+                for y in c_.own_nodes():
+                    if isinstance(y, ast.Call) and isinstance(y.func, ast.Name) and y.func.id == g_.name and y.args and isinstance(y.args[0], ast.Name) and y.args[0].id in root_params:
+                        covering = True
+                    # ... or handed, with the root, to a generic traversal that applies its callback to every node from the root on
+                    if isinstance(y, ast.Call) and any(isinstance(a, ast.Name) and a.id == g_.name for a in y.args) and any(isinstance(a, ast.Name) and a.id in root_params for a in y.args):
+                        fs_, _d = prog.callees(c_, y, ctx._types)
+                        for h_ in fs_:
+                            hp = [p_ for p_ in h_.params if p_ not in ("cls", "self")]
+                            pos = {a.id: i for i, a in enumerate(y.args) if isinstance(a, ast.Name)}
+                            cb_i = pos.get(g_.name)
+                            root_i = next((pos[r_] for r_ in root_params if r_ in pos), None)
+                            if cb_i is None or root_i is None or cb_i >= len(hp) or root_i >= len(hp):
+                                continue
+                            if _applies_to_root(h_, hp[cb_i], hp[root_i]):
+                                covering = True
+        desc = f"{c_.name} records the store path of the node it is called on"
+        if covering:
+            rep.ok("C09.R10", c_.qname, desc, c_.loc())
+        elif reads:
+            g_, x = reads[0]
+            rep.bad("C09.R10", c_.qname, desc, g_.loc(x), [f"{g_.loc(x)}: `{unparse(x)}` is only read on `{x.value.id}` (a child of the visited node): the path of the root is never collected",
+                    "dds.eval(f) with `@data_function('/acc') def f(): ... dds.load('/acc') ...`: '/acc' is then taken for a path produced elsewhere, resolved to its previous key, "
+                    "and the read-before-produce evaluation is accepted instead of rejected"], "collector-skips-root", what="the path produced by the root of an evaluation is not counted as produced by it")
+        else:
+            rep.info("C09.R10", c_.qname, f"{c_.name} reads no store_path itself (delegated): not judged", c_.loc())
+    rep.floor("C09.R10", n10, 2)
+
+    from .c12 import passthrough_rules
+    rep.rule("C09.R9", "as C12.R3: the object-cache store answers every path query from the wrapped store (the key a load resolves to - and that a "
+                       "reader's signature is built from - is the one committed last, by whichever process)")
+    passthrough_rules(ctx, "C09.R9", only=["sync_paths", "fetch_paths"])
 
     # ---- R6 -------------------------------------------------------------------------------
     n6 = 0
